@@ -20,7 +20,7 @@ CORE_PROPS = {
 }
 BUDGET = {
     "quick": {"s2c": 16000, "histories": 240, "length": 25},
-    "thorough": {"s2c": 600000, "histories": 12000, "length": 30},
+    "thorough": {"s2c": 200000, "histories": 4000, "length": 30},  # ~3 GB of records per kit (600k / 12k was killed by the OOM killer)
 }
 
 
